@@ -330,7 +330,7 @@ def _setup_live(servertype):
 
 def _teardown_live():
     if "served" in _live:
-        for p in _live["proxies"].values():
+        for p in list(_live["proxies"].values()) + list(_live.get("proxies2", {}).values()):
             try:
                 p._pyroRelease()
             except Exception:
@@ -426,7 +426,25 @@ def run_l2(case):
             viol("batch-raises", "batch raised %r" % (x,))
         # streamed items
         try:
-            items = list(p.stream(token))
+            # (another client of the same daemon has a stream of its own open at the same time and reads it in between)
+            p2 = L.setdefault("proxies2", {}).get(name)
+            if p2 is None:
+                p2 = L["proxies2"][name] = live.proxy(L["served"].uri("echo"), serializer=name)
+            L["counter"][0] += 1
+            token2 = L["counter"][0]
+            decoy = ["another client's stream", token2]
+            ORIGINALS[token2] = decoy
+            it1, it2 = p.stream(token), p2.stream(token2)
+            items, items2 = [], []
+            for _ in range(4):
+                for it, acc in ((it1, items), (it2, items2)):
+                    try:
+                        acc.append(next(it))
+                    except StopIteration:
+                        pass
+            ORIGINALS.pop(token2, None)
+            if items2 != [decoy, [decoy], {"k": decoy}]:
+                viol("stream-of-another-client", "two clients read a stream each at the same time: the second one received %.200r, its method produced %.200r" % (items2, [decoy, [decoy], {"k": decoy}]))
             if len(items) == 3 and type(items[1]) is list and len(items[1]) == 1 and type(items[2]) is dict and list(items[2]) == ["k"]:
                 checks += [("streamed item", items[0]), ("streamed nested item", items[1][0]), ("streamed dict item", items[2]["k"])]
             else:
